@@ -23,13 +23,13 @@ add("C17", "enum", "bounded-exhaustive enumeration of pattern lists x paths vs r
 
 SCHED_NOTE = "Trusts the vsched shim's model of sync.Mutex/RWMutex/Cond/WaitGroup/sync.Map/atomic (sequential consistency, no spurious wake-ups, Signal wakes any waiter), fair scheduling for termination, and data-race freedom of the instrumented files (free-running -race pass in the thorough tier). The code explored is the real file from /repo's working tree with only its sync imports and go statements redirected."
 add("C04", "vsched", "stateless exploration of all thread interleavings of the real runner up to a preemption bound (HB-pruned), monitor oracle",
-    "runner.Run is executed on every DAG with <=4 nodes x node behaviours (ok/failing/unknown, <=2 non-ok) x limits 1-3 (and split dependency requests); every interleaving with <=2 preemptions (quick; 1 for 4-node graphs) / <=3 and unbounded for <=3 nodes (thorough) is run to completion and a monitor checks at-most-once load/evaluate, dependencies finished before continuing, outcomes handed through exactly, Run's result = root's outcome.",
+    "runner.Run is executed on every DAG with <=4 nodes x node behaviours (ok/failing/unknown, <=2 non-ok) x limits 1-3 (and split dependency requests, and a dependency named twice in one request); every interleaving with <=2 preemptions (quick; 1 for 4-node graphs) / <=3 and unbounded for <=3 nodes (thorough) is run to completion and a monitor checks at-most-once load/evaluate, dependencies finished before continuing, outcomes handed through exactly, Run's result = root's outcome.",
     SCHED_NOTE + " Further pass (hist engine, -prop C04): every real project build of the history search (partial builds, whole-project builds, a dependency listed under two spellings) is monitored for at-most-once execution and execution after dependencies. Free-running -race pass of the same scenario bodies in both tiers.", "DESIGN.md section 5 C04")
 add("C05", "vsched", "stateless exploration of all thread interleavings of the real runner up to a preemption bound, deadlock/livelock detection under fair scheduling",
     "runner.Run on all directed graphs (self-loops included) on <=3 nodes plus selected 4-node graphs x limits 1-3, plus a 4-wide fan at limit 2 (two sleepers at the gate); every interleaving within the preemption bound; oracle: no deadlock, no livelock, cycle reachable => error + CyclicDependencyError handed out, acyclic => none.",
     SCHED_NOTE, "DESIGN.md section 5 C05")
 add("C06", "vsched", "stateless exploration of all interleavings of the real dawn.Load (real Starlark) over generated load graphs, preemption-bounded with HB pruning",
-    "dawn.Load runs on generated project trees realising a curated family of load graphs (shared helpers loading helpers, BUILD-loads-BUILD, self-loads, 2- and 3-cycles within and across loader goroutines, 2-4 packages) and all graphs with <=3 edges (2 packages) / <=2 edges (3 packages) up to symmetry in quick, <=3/<=4 in thorough; every interleaving of the loader goroutines within the preemption bound; oracle: each module executed at most once, no deadlock/livelock, acyclic => success with the expected targets and flags, cyclic => 'cyclic dependency' error.",
+    "dawn.Load runs on generated project trees realising a curated family of load graphs (shared helpers loading helpers, BUILD-loads-BUILD, self-loads, 2- and 3-cycles within and across loader goroutines, 2-4 packages, loads spelled by package label and relatively, helpers that cannot be loaded - unknown project, missing file - shared by several loaders) and all graphs with <=3 edges (2 packages) / <=2 edges (3 packages) up to symmetry in quick, <=3/<=4 in thorough; every interleaving of the loader goroutines within the preemption bound; oracle: each module executed at most once, no deadlock/livelock, acyclic => success with the expected targets and flags, cyclic => 'cyclic dependency' error, unloadable module => an error for every loader.",
     SCHED_NOTE, "DESIGN.md section 5 C06")
 add("C09", "vsched", "stateless exploration of all thread interleavings of the real runner; concurrency monitor + maximum-over-all-executions oracle",
     "Same scenarios as C04 plus cyclic graphs and fans preceded by each special path (unknown, failing, cyclic, nested) at limits 1-3: a monitor counts targets executing outside EvaluateTargets and must never exceed the limit (vsched.NumCPU replaces runtime.NumCPU); every scenario completes at limit 1; over all explored interleavings of a fan the maximum concurrency must equal min(limit, width).",
@@ -43,13 +43,13 @@ add("C07", "enum", "bounded-exhaustive enumeration of values through the real en
     "Trusts the isomorphism oracle (90 lines). Sharing of tuples/scalars is unobservable in Starlark and not compared. The clone differs from /repo/pickle only in the literal 1000 -> 3 (vtool -clone).", "DESIGN.md section 5 C07")
 
 add("C12", "enum", "bounded-exhaustive enumeration of label strings and (package, path) pairs vs a component-stack reference",
-    "label.Parse on every string of length <=7 (quick) / <=8 (thorough) over {a,b,:,/,.,@}; for every accepted label with a name or without a kind: print/re-parse identity, global canonical-print table (equal prints <=> equal labels), the same after RelativeTo against three packages; repoSourcePath/sourceLabel on every path of length <=8 (<=10) over {a,/,.,:} against three packages compared with a component-stack resolver (accepted => resolves inside the root at the reference location; escaping => rejected). The record path derived from every accepted label (targets and sources) must stay below the build-state directory and be injective over the whole enumerated set. No panics anywhere.",
+    "label.Parse on every string of length <=7 (quick) / <=8 (thorough) over {a,b,:,/,.,@}; for every accepted label with a name or without a kind: print/re-parse identity, global canonical-print table (equal prints <=> equal labels), the same after RelativeTo against three packages and six non-canonical spellings of them (error or the canonical spelling's result); repoSourcePath/sourceLabel on every path of length <=8 (<=10) over {a,/,.,:} against three packages compared with a component-stack resolver (accepted => resolves inside the root at the reference location; escaping => rejected). The record path derived from every accepted label (targets and sources) must stay below the build-state directory and be injective over the whole enumerated set. No panics anywhere.",
     "Trusts the reference resolver and the field-wise label equality; lexical confinement only (symlinks out of scope, as in the code).", "DESIGN.md section 5 C12")
 add("C15", "enum", "bounded-exhaustive enumeration of byte strings and single-fault corruptions through the real decoder; fault enumeration over record files through Load/Run",
-    "All byte strings of length <=3 over all 256 values (16.8M), all strings of length 4 (5) over 38 opcode/operand bytes, all opcode sequences of <=5 (6) operations over a 27-op core (incl. explicit-id memo opcodes), and every truncation/deletion/substitution/insertion of six valid encodings (including two real function environments), each decoded with no unpickler and with dawn's environment unpickler: Decode must return, never panic, never return (nil,nil), and the value must be printable/hashable/freezable/comparable. Record-file corruptions through Load/Run are enumerated by the same harness.",
-    "Precondition of the property honoured conservatively (inputs with a 4-byte length field larger than the input are skipped and counted).", "DESIGN.md section 5 C15")
+    "All byte strings of length <=3 over all 256 values (16.8M), all strings of length 4 (5) over 38 opcode/operand bytes, all opcode sequences of <=5 (6) operations over a 27-op core (incl. explicit-id memo opcodes), and every truncation/deletion/substitution/insertion of six valid encodings (including two real function environments), each decoded with no unpickler and with dawn's environment unpickler: Decode must return, never panic, never return (nil,nil), and the value must be printable/hashable/freezable/comparable. Record-file corruptions through Load/Run are enumerated by the same harness (file bytes, structural edits of the recorded environment, single bytes of the environment encoding). Towers of shared tuples (6 bytes per level) are decoded as value / dict key / set element in child processes under a 20 s hang guard.",
+    "Precondition of the property honoured conservatively (inputs with a 4-byte length field larger than the input are skipped and counted). Two open known findings: decoding time exponential in the input for shared tuples used as dict key / set element (known_findings.json).", "DESIGN.md section 5 C15")
 add("C19", "enum", "bounded-exhaustive enumeration of configurations, round-trip oracle",
-    "Every string of length <=3 (<=4 thorough) over a 13-symbol alphabet (quotes, backslash, newline, tab, CR, NUL, #, =, non-ASCII) in each field separately, all pairs/triples of fields with shorter strings, every ASCII character in every field, path x version tables incl. versioned paths, all subsets of <=3 of 21 requirement keys, ignore lists: WriteConfigFile then LoadConfigFile must give back the configuration, and writing it again identical bytes. Failing configurations are delta-debugged to a cause signature.",
+    "Every string of length <=3 (<=4 thorough) over a 13-symbol alphabet (quotes, backslash, newline, tab, CR, NUL, #, =, non-ASCII) in each field separately, all pairs/triples of fields with shorter strings, every ASCII character in every field, path x version tables incl. versioned paths, every path of <=5 (6) tokens over {a,b,/,@,.,v2,v1}, all subsets of <=3 of 21 requirement keys, ignore lists: WriteConfigFile then LoadConfigFile must give back the configuration, and writing it again identical bytes, also when written over an existing longer file. Failing configurations are delta-debugged to a cause signature.",
     "Valid configurations only (canonical semver versions, clean paths), as the property quantifies.", "DESIGN.md section 5 C19")
 
 add("C16", "enum", "bounded-exhaustive enumeration of value pairs through the real Diff (and a route-limit-4 build), edit-script replay oracle",
@@ -58,19 +58,19 @@ add("C16", "enum", "bounded-exhaustive enumeration of value pairs through the re
 
 HIST_NOTE = "Trusts the reference model (what each target's latest successful execution consumed) and the project shape's input map; every build is a fresh dawn.Load + Run through the public API on a real directory (tmpfs); intra-build thread schedule is the Go runtime's (schedules are C04/C05/C09's); execution identifiers in records are alpha-renamed for state de-duplication because dawn only compares them for equality."
 add("C01", "hist", "explicit-state BFS over all edit/build histories up to a depth on real project directories; currency model + differential against a from-scratch build",
-    "Breadth-first search over every sequence of <=5 operations (quick; 15-operation alphabet: source, directory-rename/add, constant across pickle width classes, default, helper code, closure, dependency edge, failing body, deleted declared output, full and partial builds) / <=8 over the full 31-operation alphabet within the budget (thorough), de-duplicated on canonical state. After every successful build every target in the closure must be current per the reference model (environment, source contents incl. directory entry names, declared outputs, latest executions of dependencies) and the produced files must equal those of a from-scratch build of the same tree.",
-    HIST_NOTE, "DESIGN.md sections 3, 5 C01")
+    "Breadth-first search over every sequence of <=5 operations (quick; 15-operation alphabet: source, directory-rename/add, constant across pickle width classes, default, helper code, closure, dependency edge, failing body, deleted declared output, full and partial builds) / <=8 over the full 31-operation alphabet within the budget (thorough), de-duplicated on canonical state. After every successful build every target in the closure must be current per the reference model (environment, source contents incl. directory entry names, declared outputs, latest executions of dependencies) and the produced files must equal those of a from-scratch build of the same tree. Focused searches (small alphabets, depth 5-8) add reverts through partial builds, links in source directories, edits between values that are equal under == (1/1.0, dict order), and builds interrupted by real process death inside a body.",
+    HIST_NOTE + " Further pass (c08 harness, -as C01): for every program of the C08 feature grammar and every listed single edit of a referenced value, the target must be re-executed (incl. an alias re-pointed among 300 objects across the 1-byte reference-id boundary).", "DESIGN.md sections 3, 5 C01, 12.2")
 add("C02", "hist", "explicit-state BFS over all histories; minimality oracle (every executed target needs a reason the property recognises)",
-    "Same search with an alphabet of neutral edits (comment/blank/docstring edits in three files, out-of-closure source, other package's target added/removed, undeclared output deleted, same-content re-creation of every file on every transition) mixed with real edits and partial builds: in every reachable state a target that is current by the model and none of whose dependencies executes must not execute.",
-    HIST_NOTE + " Second pass: dawn.Load under the controlled scheduler (c06 harness, -as C02): under every explored interleaving of the package/module loads the fingerprint of every target must equal the one of the first interleaving. Process-restart independence (another OS process) is exercised by C08's harness.", "DESIGN.md sections 3, 5 C02")
+    "Same search with an alphabet of neutral edits (comment/blank/docstring edits in three files, out-of-closure source, other package's target added/removed, undeclared output deleted, same-content re-creation of every file on every transition, dry runs, GC) mixed with real edits and partial builds: in every reachable state a target that is current by the model and none of whose dependencies executes must not execute.",
+    HIST_NOTE + " Minimality is not asserted for a target after an edit to the code of its own build file (the property promises it for comment edits and for other packages' build files; such executions are counted). Second pass: dawn.Load under the controlled scheduler (c06 harness, -as C02): under every explored interleaving of the package/module loads the fingerprint of every target must equal the one of the first interleaving. Process-restart independence (another OS process) is exercised by C08's harness.", "DESIGN.md sections 3, 5 C02")
 add("C13", "hist", "explicit-state BFS with dry runs at every position; twin real build from the same state",
-    "Dry runs of two targets are operations of the BFS (depth <=6 quick): a dry run must execute no body, leave the directory byte-identical to what Load left, report exactly the targets the real build of the same state attempts (superset limited to downstream of the failure when the real build fails), and Build-after-Dry must equal Build directly (executed set and resulting state).",
+    "Dry runs of two targets are operations of the BFS (depth <=6 quick): a dry run must execute no body, leave the directory byte-identical to what Load left, report exactly the targets the real build of the same state attempts (superset limited to downstream of the failure when the real build fails), and Build-after-Dry must equal Build directly (executed set and resulting state). A focused search adds dry runs after builds interrupted by real process death.",
     HIST_NOTE, "DESIGN.md section 5 C13")
 add("C14", "hist", "explicit-state BFS with GC (full and index-preferred load) at every position; twin continuation with/without GC",
-    "GC in both load modes is an operation of the BFS, with target removal/addition, stray files and failing builds in the alphabet: records of live labels stay byte-identical, afterwards .dawn/build holds only index.json, an empty temp/ and live records, nothing outside changes, and builds of three targets from the post-GC and pre-GC states execute the same sets.",
+    "GC in both load modes, and Run followed by GC on one loaded Project, are operations of the BFS, with target removal/addition (incl. a target whose record name extends another's), stray files and failing builds in the alphabet: records of live labels stay byte-identical, afterwards .dawn/build holds only index.json, an empty temp/ and live records, nothing outside changes, and builds of three targets from the post-GC and pre-GC states execute the same sets.",
     HIST_NOTE, "DESIGN.md section 5 C14")
 add("C18", "hist", "explicit-state BFS; per-label event automaton on every build of every reachable state",
-    "Every build (incl. failing, always and dry builds) of the BFS is monitored: per label UpToDate | Evaluating Print* (Succeeded|Failed) | lone Failed only for missing/cyclic dependency; Prints only inside; exactly one RunDone, last, carrying Run's error; Evaluating <=> the body ran.",
+    "Every build (incl. failing, always and dry builds) of the BFS is monitored: per label UpToDate | Evaluating Print* (Succeeded|Failed) | lone Failed only for missing/cyclic dependency; Prints only inside; exactly one RunDone, last, carrying Run's error; Evaluating <=> the body ran, and in a dry run <=> the real build of the same state runs it.",
     HIST_NOTE + " The same run enumerates every text over {x, newline} of length <=7 (10) x every cut into chunks, written from a real target body through a fresh and through a reused buffer: the delivered lines must be the text's lines, once, between Evaluating and completion. A record-write fault caused by a body (temp directory removed) is in the alphabet. Second pass (binary with the root package and runner under vsched): 8 build scenarios incl. missing dependency and dependency cycle, every interleaving of Project.Run with 0 (quick) / 1 (thorough) preemptions, same protocol oracle plus line delivery of chatty bodies.", "DESIGN.md section 5 C18")
 
 add("C03", "hist+vsched+vos", "enumeration of every crash point between persistent effects (plus torn in-place writes) of real builds under the controlled scheduler, then BFS of recovery histories",
@@ -78,14 +78,14 @@ add("C03", "hist+vsched+vos", "enumeration of every crash point between persiste
     HIST_NOTE + " Crash model = process death (no power-loss reordering), as the property states.", "DESIGN.md sections 3.4, 5 C03")
 
 add("C08", "enum", "bounded-exhaustive enumeration of BUILD-file programs from a feature grammar (singles + pairs) through the real loader in worker processes; fingerprint equality/inequality oracle",
-    "46 features (every value kind incl. cyclic and >1000-element data, defaults, closures, nested defs/lambdas, helpers in the same/loaded/second-level module, direct, mutual and loaded recursion, self-reference, other target objects, every predeclared kind, bound methods, flags, varargs) alone and in pairs (quick: a quarter of the pairs): each program is loaded twice at different roots (and in another OS process), its function environment must be computed without error or crash, be equal across loads with byte-equal encodings, differ after each of its listed single edits; build + rebuild executes once then nothing; after each edit the rebuild reason must name exactly the environment parts that differ.",
-    "A dead worker (Go's stack overflow is fatal) is attributed to the program it was loading. Equality of environments with cyclic data is decided through their (deterministic) encodings.", "DESIGN.md section 5 C08")
+    "About 75 features (every value kind incl. cyclic and >1000-element data, defaults, closures, nested defs/lambdas, helpers in the same/loaded/second-level module, direct, mutual and loaded recursion, self-reference, other target objects, every predeclared kind, bound methods, flags, varargs, keyword-only parameters, values equal under == but distinguishable, an alias re-pointed among 300 referenced objects) alone and in pairs (quick: a quarter of the pairs): each program is loaded twice at different roots (and in another OS process), its function environment must be computed without error or crash, be equal across loads with byte-equal encodings, differ after each of its listed single edits; build + rebuild executes once then nothing; after each edit the rebuild reason must name exactly the environment parts that differ.",
+    "A dead worker (Go's stack overflow is fatal) is attributed to the program it was loading. The fingerprint is the encoding stored in the record: an edit is detected iff the encodings differ.", "DESIGN.md section 5 C08")
 
 add("C10", "enum", "bounded-exhaustive enumeration of requirement universes x root sets through the real resolver (fake in-package dialer), reachability+max reference",
     "All universes of 2 projects x 2 versions + 1 (quick; plus split-repository and two-major families) / 3x2, 2x3 and majors families (thorough, time-bounded) in which every (project, version) requires at most one version of every other project, x every root set with at most one version per project: BuildList on a cold cache, again on the same resolver, with a new resolver on the warm cache, with root names renamed and with declaration/tag order reversed must all equal the reference (breadth-first reachability over requirement edges, semver maximum per path); the resolver must download only reachable nodes. Further families: fetches interrupted after k files (child processes really die; parked-download interleavings), duplicate root names, and projects in sub-directories of one repository with pseudo-versions.",
     "Trusts the reference and the fake repository (dawn.toml files materialised in a tmpfs cache through the package's own Dialer seam). The third-party mvs library's goroutines run free; every universe is resolved five times and all answers must agree.", "DESIGN.md section 5 C10")
 add("C11", "enum", "bounded-exhaustive enumeration of universes x root sets x operation sequences (depth 2/3) as a memoised state graph, re-resolved against the reference",
-    "Over 12.6k universes (quick) in 9 families x root sets x {Tidy, UpgradeAll, Get by path/latest/upgrade/patch/exact/range prefix/>/>=/</<=/branch/revision/major} x all sequences of length <=2 (3 thorough): Tidy keeps the build list; an upgrade puts the resolved version in the build list and lowers nothing; a downgrade leaves the project at or below the request; surviving names are unchanged and new ones unique; repeating an operation on its own result changes nothing. Every operation runs under a 10 s hang guard in worker processes.",
+    "Over 12.6k universes (quick) in 9 families x root sets x {Tidy, UpgradeAll, Get by path/latest/upgrade/patch/exact/range prefix/>/>=/</<=/branch/revision/major} x all sequences of length <=2 (3 thorough): Tidy keeps the build list; an upgrade puts the resolved version in the build list and lowers nothing; a downgrade leaves the project at or below the request; surviving names are unchanged and new ones unique; repeating an operation on its own result changes nothing; a non-canonical spelling of a project path in a query gives an error or exactly the canonical spelling's result. Every operation runs under a 10 s hang guard in worker processes.",
     "Query resolution is compared with an independent reference only where the code's own comments fix the meaning (closest tagged ancestor for refs; vX.Y as a lower-bound range). Three open known findings (non-idempotent Get in self-conflicting universes) are listed in known_findings.json.", "DESIGN.md section 5 C11")
 
 NA = {
